@@ -378,3 +378,101 @@ def r08f(model: Model, rr: RuleResult):
     mfi = model.func("write_glyphmap", "main")
     if any(callee_tail(c) == "_glyphmappings" and c.args and isinstance(c.args[0], ast.Name) for c in calls_in(mfi)):
         rr.ok("main passes the expanded response file list on as it is")
+
+
+MUTATORS = {"add", "append", "update", "setdefault", "pop", "clear", "extend", "insert", "remove", "popitem", "discard", "appendleft", "sort", "reverse", "__setitem__"}
+HIDDEN_STATE_OK: dict = {}
+
+
+def _sound_memo(fi, name: str) -> bool:
+    """`name` is used in fi as a memo that cannot change results: every store is `name[key] = v` and every read `name.get(key)` / `name[key]` /
+    `key in name` with a key that mentions every parameter (self/cls aside), and a value read from it is returned unmodified."""
+    from ..dataflow import param_closure
+    cfg = cfg_of(fi)
+    params = [p for p in fi.params if p not in ("self", "cls")]
+    keys = []
+    reads = []
+    for x in walk_body(fi, nested=False):
+        if isinstance(x, ast.Subscript) and isinstance(x.value, ast.Name) and x.value.id == name:
+            keys.append((x, x.slice))
+            if isinstance(x.ctx, ast.Load):
+                reads.append(x)
+        elif isinstance(x, ast.Call) and isinstance(x.func, ast.Attribute) and isinstance(x.func.value, ast.Name) and x.func.value.id == name:
+            if x.func.attr in ("get", "setdefault") and x.args:
+                keys.append((x, x.args[0]))
+                reads.append(x)
+            else:
+                return False
+        elif isinstance(x, ast.Compare) and any(isinstance(c, ast.Name) and c.id == name for c in x.comparators):
+            keys.append((x, x.left))
+        elif isinstance(x, ast.Name) and x.id == name and isinstance(x.ctx, ast.Store):
+            return False
+    if not keys:
+        return False
+    for site, k in keys:
+        st = site
+        try:
+            at = cfg.node_for(site)
+        except Exception:
+            return False
+        if not set(params) <= param_closure(cfg, at, k):
+            return False
+    # hits: a value read from the memo flows to a return only as itself
+    for st in walk_body(fi):
+        if isinstance(st, ast.Return) and st.value is not None:
+            uses = [n for n in ast.walk(st.value) if (isinstance(n, ast.Name) and any(isinstance(d.value, (ast.Call, ast.Subscript)) and d.value in reads for d in cfg.reaching(cfg.node_for(st), n.id))) or n in reads]
+            if uses and not (len(uses) == 1 and uses[0] is st.value):
+                return False
+    return True
+
+
+@RULES.rule("C08", "R08g", "no hidden state: no function changes a module-level container or rebinds a global (memo tables keyed on part of the input)", floor=20)
+def r08g(model: Model, rr: RuleResult):
+    """A module-level memo makes the result of a call depend on the calls before it: on the other glyphs, the other configuration, the
+    other font built by the same process.  The pinned tree has none (functools.lru_cache on pure helpers aside), so any new one is reported;
+    a cache that is correct must be keyed on everything the result depends on, which is what lru_cache does."""
+    n = 0
+    for mname, mod in sorted(model.modules.items()):
+        containers = {}
+        for st in mod.tree.body:
+            tg = v = None
+            if isinstance(st, ast.Assign) and len(st.targets) == 1 and isinstance(st.targets[0], ast.Name):
+                tg, v = st.targets[0].id, st.value
+            elif isinstance(st, ast.AnnAssign) and isinstance(st.target, ast.Name) and st.value is not None:
+                tg, v = st.target.id, st.value
+            if tg and (isinstance(v, (ast.Dict, ast.List, ast.Set)) or (isinstance(v, ast.Call) and callee_tail(v) in ("dict", "list", "set", "defaultdict", "OrderedDict", "Counter", "deque", "WeakValueDictionary"))):
+                containers[tg] = st
+        bad_here = 0
+        for fi in mod.functions.values():
+            if "." in fi.qualname and fi.qualname.rsplit(".", 1)[0] in mod.functions:
+                continue
+            shadow = set(fi.params)
+            for x in walk_body(fi, nested=True):
+                if isinstance(x, ast.Name) and isinstance(x.ctx, ast.Store):
+                    shadow.add(x.id)
+            for x in walk_body(fi, nested=True):
+                nm = None
+                if isinstance(x, ast.Global):
+                    for g in x.names:
+                        if (mname, fi.qualname, g) not in HIDDEN_STATE_OK:
+                            rr.bad(fi, x, f"`global {g}` in {fi.qualname}: the function rebinds module state, so its result depends on earlier calls", construct=f"{fi.qualname}: global {g}")
+                            bad_here += 1
+                if isinstance(x, ast.Subscript) and isinstance(x.ctx, (ast.Store, ast.Del)) and isinstance(x.value, ast.Name):
+                    nm = x.value.id
+                if isinstance(x, ast.Call) and isinstance(x.func, ast.Attribute) and isinstance(x.func.value, ast.Name) and x.func.attr in MUTATORS:
+                    nm = x.func.value.id
+                if isinstance(x, ast.AugAssign) and isinstance(x.target, ast.Name):
+                    nm = x.target.id if x.target.id in containers and x.target.id not in shadow else None
+                if nm in containers and nm not in shadow and (mname, fi.qualname, nm) not in HIDDEN_STATE_OK:
+                    if _sound_memo(fi, nm):
+                        rr.ok(f"{mname}.{fi.qualname}: `{nm}` is a memo keyed on every parameter whose hits return the stored value itself")
+                        continue
+                    rr.bad(fi, x, f"{fi.qualname} writes to the module-level container `{nm}` ({mname}.py:{containers[nm].lineno}): what it returns next time depends on what "
+                           f"was looked up before (another shape, glyph, configuration or font in the same process) unless the key holds every input the value depends on",
+                           construct=f"{fi.qualname}: mutates module-level {nm}")
+                    bad_here += 1
+        n += 1
+        if not bad_here:
+            rr.ok(f"{mname}: {len(containers)} module-level container(s), none written by a function")
+    if n < 20:
+        raise AnalysisError(f"R08g: only {n} modules scanned")
